@@ -277,8 +277,17 @@ def _worker(args):
     mod = importlib.import_module(modname)
     rng = random.Random(f"{mod.PROP}/{seed}/{chunk}")
     out = []
-    gen = mod.generate(rng, tier, count) if count is not None else []
-    for sc in gen:
+    gen = iter(mod.generate(rng, tier, count) if count is not None else [])
+    while True:
+        try:
+            sc = next(gen)
+        except StopIteration:
+            break
+        except Exception:
+            # a generator that drives the implementation while it generates and crashes there (e.g. a changed translated
+            # function): recorded like a crashing scenario, so that the decision procedure runs instead of a traceback
+            out.append((["# scenario generator crashed on the implementation"], {}, None, "crash: " + traceback.format_exc()[-1500:]))
+            break
         try:
             obs = guarded_impl(mod, sc)
         except ScenarioTimeout:
@@ -470,6 +479,16 @@ def _main(ctx, args):
     if hasattr(mod, "gen_tables"):
         for rel, content in mod.gen_tables().items():
             gen_changed |= write_if_changed(os.path.join(LEAN, rel), content)
+    # 1b. functions translated from the current source (harness/xlate_registry.py, harness/py2lean.py)
+    from . import xlate_registry as XR
+    xl = XR.REGISTRY.get(prop)
+    xl_broken, xl_infos = None, []
+    if xl:
+        xl_files, xl_infos, xl_problems = XR.regenerate(prop, REPO)
+        for rel, content in xl_files.items():
+            gen_changed |= write_if_changed(os.path.join(LEAN, rel), content)
+        if xl_problems:
+            xl_broken = {"reason": "; ".join(xl_problems), "theorems": list(xl["theorems"])}
 
     # 2. proof obligations
     ok, out = lake_build(list(mod.LEAN_MODULES) + drivers_of(mod))
@@ -480,11 +499,20 @@ def _main(ctx, args):
             build_broken = out[-3000:]
         else:
             raise Infra("lake build failed:\n" + out[-3000:])
-    aud = {"obligations": len(mod.THEOREMS), "discharged": 0, "problems": ["build failed"], "axioms": []}
+    if xl and not xl_broken:
+        # the generated definitions and the equivalence theorems `generated = model` (a failure here is a broken tie)
+        ok2, out2 = lake_build(list(xl["lean_modules"]))
+        if not ok2:
+            xl_broken = dict(XR.diagnose(prop, out2, LEAN), build_output=out2[-3000:])
+    xl_mods, xl_thms = (list(xl["lean_modules"]), list(xl["theorems"])) if xl and not xl_broken else ([], [])
+    aud = {"obligations": len(mod.THEOREMS) + len(xl_thms), "discharged": 0, "problems": ["build failed"], "axioms": []}
     if not build_broken:
-        aud = audit(list(mod.LEAN_MODULES), list(mod.THEOREMS), leanchecker=(tier == "thorough"))
-        if aud["problems"] and not hasattr(mod, "gen_tables"):
+        aud = audit(list(mod.LEAN_MODULES) + xl_mods, list(mod.THEOREMS) + xl_thms, leanchecker=(tier == "thorough"))
+        if aud["problems"] and not hasattr(mod, "gen_tables") and not xl:
             raise Infra("proof audit failed (not caused by /repo): " + "; ".join(aud["problems"]) + "\n" + aud.get("raw", ""))
+    if xl_broken:
+        aud["obligations"] += len(xl["theorems"])
+        aud["problems"] = list(aud["problems"]) + ["translated functions (py2lean): " + xl_broken["reason"]]
 
     # replay mode
     if args.replay:
@@ -606,6 +634,8 @@ def _main(ctx, args):
                 payload["build_output"] = build_broken
             elif aud["problems"]:
                 payload["theorem_or_stream"] = aud["problems"]
+            if xl_broken:
+                payload["translated_functions"] = xl_broken
             if disagreements:
                 lines, meta, obs, mo, d = disagreements[0]
                 small = shrink_disagreement(mod, lines, meta) if mo is not None else lines
@@ -621,17 +651,20 @@ def _main(ctx, args):
 
     if hasattr(mod, "extra"):
         mod.extra(ctx)
+    if xl and not xl_broken:
+        from . import xlate_selftest
+        xlate_selftest.run(ctx, prop)
 
     # 5. evidence
     samples = [{"ops": l, "impl": o} for (l, _, o, _) in good[n_corpus : n_corpus + 2]] or [{"ops": l, "impl": o} for (l, _, o, _) in good[:2]]
     cov = {
         "obligations": aud["obligations"],
         "discharged": aud["discharged"],
-        "checker_cmd": "cd lean && lake build " + " ".join(mod.LEAN_MODULES) + " && lake env lean <#print axioms of each theorem>" + (" && lake env leanchecker " + " ".join(mod.LEAN_MODULES) if tier == "thorough" else ""),
+        "checker_cmd": "cd lean && lake build " + " ".join(list(mod.LEAN_MODULES) + xl_mods) + " && lake env lean <#print axioms of each theorem>" + (" && lake env leanchecker " + " ".join(list(mod.LEAN_MODULES) + xl_mods) if tier == "thorough" else ""),
         "trusted_base": ["Lean 4.33.0 kernel", "axioms used: " + (", ".join(aud["axioms"]) or "none"),
                          "harness/core.py + harness/%s.py (correspondence check, generators, canonicalisers)" % mod.__name__.split(".")[-1],
-                         "lean/Driver (line parser)"] + list(mod.TRUSTED),
-        "theorems": list(mod.THEOREMS),
+                         "lean/Driver (line parser)"] + list(mod.TRUSTED) + (list(XR.TRUSTED) if xl else []),
+        "theorems": list(mod.THEOREMS) + (list(xl["theorems"]) if xl else []),
         "evaluations": len(records),
         "distinct_nontrivial": nontrivial,
         "rule": mod.RULE,
@@ -648,6 +681,8 @@ def _main(ctx, args):
     }
     if "leanchecker" in aud:
         cov["leanchecker"] = aud["leanchecker"]
+    if xl:
+        cov["translated_functions"] = [i for i in xl_infos if i["function"] in xl["functions"]]
     cov.update(ctx.cov)
     ev = {
         "property_id": prop, "tier": tier, "seed": seed, "level": "proof", "coverage": cov,
